@@ -125,6 +125,20 @@ pub fn catch<R>(f: impl FnOnce() -> R) -> Result<R, String> {
     }
 }
 
+/// A chunk of a hand-written bulk loop: `f(false)` is the fast pass; if anything inside it panics (a panic inside the
+/// library under test), the chunk is run again as `f(true)`, in which every single evaluation is wrapped in `catch`
+/// (see `guard!`) so that the panicking input is identified and reported as an ordinary failure with its case.
+pub fn two_pass<R>(f: impl Fn(bool) -> R) -> R {
+    install_hook();
+    match catch_unwind(AssertUnwindSafe(|| f(false))) {
+        Ok(r) => r,
+        Err(_) => {
+            let _ = LAST.with(|l| l.borrow_mut().take());
+            f(true)
+        }
+    }
+}
+
 /// Does `f` panic?
 pub fn panics<R>(f: impl FnOnce() -> R) -> bool {
     catch(f).is_err()
